@@ -172,10 +172,58 @@ def run(res):
         got = [g.rstrip(b"\x00") for g in R.read_rpu_file_raw(out)] if p.returncode == 0 and os.path.exists(out) else None
         if got != exp:
             res.violation("editor {\"mode\": %d} output differs from the `-m %d` conversion of the same RPUs (exit %d)" % (n8, n8, p.returncode), {"cmd": "editor mode", "mode": n8, "input_rpus": [x.hex() for x in sample]}, key="u8-mode-%d" % n8)
+    # per mode, the RPUs that mode converts: editor {"mode": n} on a file of them, and the same number through the
+    # global `-m n` flag and through `--edit-config {"mode": n}` on extract-rpu of a stream carrying them: all three
+    # must give the library's conversion of every RPU (the mixed file above fails in most modes: outcome only)
+    from .. import streamgen as S
+    from .. import hevc as H
+    rs = C.rng(res.seed, "c04surf")
+    allok = [raw[4:] for raw in raws if by[(raw, "src", None)][1].startswith("ok ")]
+    for n8 in range(0, 6):
+        conv = []
+        for raw in allok:
+            le, oe = by[(RC.SC4 + raw, "enum", DOC_CLI[n8])]
+            if oe.startswith("ok ") and opgen.canon_seq(oe)[2] != "errw":
+                conv.append((raw, C.unhexs(opgen.canon_seq(oe)[2]).rstrip(b"\x00")))
+        rs.shuffle(conv)
+        conv = conv[:40]
+        if not conv:
+            continue
+        with open(inp, "wb") as f:
+            for raw, _ in conv:
+                f.write(b"\x00\x00\x00\x01" + R.escape(raw))
+        cfg = os.path.join(tmp, "m%d.json" % n8)
+        out = os.path.join(tmp, "outc%d.bin" % n8)
+        if os.path.exists(out):
+            os.remove(out)
+        p = subprocess.run([C.DOVI, "editor", "-i", inp, "-j", cfg, "-o", out], stdout=subprocess.PIPE, stderr=subprocess.STDOUT, timeout=300)
+        ncli += 1
+        got = [g.rstrip(b"\x00") for g in R.read_rpu_file_raw(out)] if p.returncode == 0 and os.path.exists(out) else None
+        if got != [e for _, e in conv]:
+            res.violation("editor {\"mode\": %d} on RPUs the mode converts differs from the `-m %d` conversion (exit %d)" % (n8, n8, p.returncode), {"cmd": "editor mode", "mode": n8, "input_rpus": [x.hex() for x, _ in conv]}, key="u8-mode-%d" % n8)
+        nalok = [(raw, e) for raw, e in conv if raw[:3] == bytes([0x19, 8, 9])][:12]
+        if not nalok:
+            continue
+        frames = S.gen_frames(rs, len(nalok), el=False, eos_mid=False)
+        for f, (raw, _) in zip(frames, nalok):
+            for i, n in enumerate(f):
+                if n.type == 62:
+                    f[i] = S.SNal(H.rpu_nal(raw))
+        hv = os.path.join(tmp, "in.hevc")
+        open(hv, "wb").write(S.stream_bytes(rs, S.flatten(frames), sc="four", tz_prob=0))
+        for label, pre in (("-m %d" % n8, ["-m", str(n8)]), ("--edit-config {\"mode\": %d}" % n8, ["--edit-config", cfg])):
+            out = os.path.join(tmp, "outx%d.bin" % n8)
+            if os.path.exists(out):
+                os.remove(out)
+            p = subprocess.run([C.DOVI] + pre + ["extract-rpu", hv, "-o", out], stdout=subprocess.PIPE, stderr=subprocess.STDOUT, timeout=300)
+            ncli += 1
+            got = [g.rstrip(b"\x00") for g in R.read_rpu_file_raw(out)] if p.returncode == 0 and os.path.exists(out) else None
+            if got != [e for _, e in nalok]:
+                res.violation("%s extract-rpu differs from the library's mode %d conversion of the stream's RPUs (exit %d)" % (label, n8, p.returncode), {"cmd": "extract-rpu surface", "surface": label, "mode": n8, "input_rpus": [x.hex() for x, _ in nalok]}, key="u8-mode-%d" % n8)
     res.coverage.update({
         "evaluations": 2 * len(lines) + ncli,
         "distinct_nontrivial": checked,
-        "rule": "every generated / asset RPU x the five conversion modes through the enum, applied once and twice, and the integers 0..6, 200 through the u8 surface; target form, DM payload preservation, re-parse, idempotence and equality of the integer surface with the documented CLI numbering are checked on the implementation's results; `editor {mode: n}` on an RPU file compared with the per-RPU library conversion; non-trivial = (RPU, mode) pairs whose source RPU parses",
+        "rule": "every generated / asset RPU x the five conversion modes through the enum, applied once and twice, and the integers 0..6, 200 through the u8 surface; target form, DM payload preservation, re-parse, idempotence and equality of the integer surface with the documented CLI numbering are checked on the implementation's results; `editor {mode: n}` on an RPU file compared with the per-RPU library conversion (a mixed file, and per mode a file of the RPUs that mode converts); `-m n` and `--edit-config {mode: n}` on extract-rpu of a stream carrying those RPUs; non-trivial = (RPU, mode) pairs whose source RPU parses",
         "disagreements": nd,
         "samples": [" ".join(lines[k].split()[3:]) for k in (1, 3, 12)],
     })
